@@ -43,6 +43,11 @@ type Scenario struct {
 	// the end of frame f.
 	ConsumerStalls map[int64]int `json:"consumer_stalls,omitempty"`
 	ProducerStalls map[int]int   `json:"producer_stalls,omitempty"`
+	// Neighbour: the file of another ROM. A second emulator (no display, no sound, no serial
+	// writer) is created from it right after the one under observation and runs one frame after
+	// each of that one's frames, on the same goroutine. It is part of what else the process is
+	// doing, never of what must be equal between runs.
+	Neighbour string `json:"neighbour,omitempty"`
 }
 
 // Trace is everything observable about a run.
@@ -146,6 +151,12 @@ func Run(s Scenario, romPath string) Trace {
 		}
 	}
 	gb := gameboy.New(gameboy.Config{RomFilename: romPath, DisableVideoOutput: !s.Video, DisableAudioOutput: !s.Audio, SerialWriter: serial, DebugCPU: s.DebugCPU, DebugLCD: s.DebugLCD})
+	neighbour := func() {}
+	if s.Neighbour != "" {
+		nb := gameboy.New(gameboy.Config{RomFilename: s.Neighbour, DisableVideoOutput: true, DisableAudioOutput: true})
+		neighbour = func() { nb.XRunFrame(context.Background()) }
+		defer nb.Cleanup()
+	}
 	deliver := func(frame int) {
 		for _, k := range s.Keys {
 			if k.Frame == frame {
@@ -172,6 +183,7 @@ func Run(s Scenario, romPath string) Trace {
 			tr.FrameHashes = append(tr.FrameHashes, hashBytes(gb.XPPU().Frame().Pix))
 			deliver(int(n))
 			stallProducer(int(n))
+			neighbour()
 			if int(n) >= s.Frames {
 				w.SetShouldClose(true)
 			}
@@ -183,6 +195,7 @@ func Run(s Scenario, romPath string) Trace {
 			tr.FrameHashes = append(tr.FrameHashes, hashBytes(gb.XPPU().Frame().Pix))
 			deliver(f)
 			stallProducer(f)
+			neighbour()
 		}
 		gb.Cleanup()
 	}
